@@ -79,6 +79,11 @@ CLAIMED = {
             "For each enumerated group, signature and layout z3 proves GA(h.x) = h.GA(x) for every h in G and EVERY inner model, GA = inner when averaging is off, "
             "the equator-flip commutation, from1d(to1d(x)) = x, to1d(lonflip.x) = flip.to1d(x), ModelWrapper's channel placement.",
             "Inner model reads blocks by type; N=3 (d=2), 2 (d=3); 1/|G| enters at the exact value of the float32 the code multiplies by.", "4/C10"),
+    "C07": (JX, "monolithic symbolic execution of the real network __call__ jaxprs with ALL parameters and inputs symbolic; let-abstraction (hash-consed definition atoms), eigh contract stub, order-independent max-pool selection; z3 (QF_UFNRA), abstraction refined / replayed on sat",
+            "For each enumerated architecture cell z3 proves model(g.x) = g.model(x) (and the stated translations) for ALL parameter values and ALL inputs, "
+            "each output block with the requested type, for ConvBlock (both orders), ResNet, DilResNet, UNet.",
+            "Assumes the eigh contract and the max-pool unique-maximiser precondition (both discharged/stated in C08); d=2 N=4 (8), d=3 N<=4; depth<=2, 1 block, "
+            "1-2 downsamples; cells sampled (pairwise core + seeded).", "4/C07"),
 }
 
 NOT_YET = {}
